@@ -38,8 +38,12 @@ NOTIF = {'error': 'Cease', 'sub_error': None, 'data': "b''"}
 RR = {'afi': 1, 'res': 0, 'safi': 1}
 UPD_ERR = {'attr': {'1': 0}, 'nlri': [], 'withdraw': [], 'sub_error': 9, 'err_data': "b'\\x00\\n'"}
 
+# a record longer than the largest BGP message (an UPDATE of many prefixes is one line of more than 4096 characters)
+UPD_XL = {'attr': {'1': 0, '2': [[2, [65001, 65002]]], '3': '10.0.0.1'},
+          'nlri': ['10.%d.%d.0/24' % (i // 250, i % 250) for i in range(420)], 'withdraw': []}
+
 PAYLOADS = {
-    'update': [UPD_S, UPD_M, UPD_L, {'attr': {}, 'nlri': [], 'withdraw': []}, {'x': 'line1\nline2 é "q"'}],
+    'update': [UPD_S, UPD_M, UPD_L, UPD_XL, {'attr': {}, 'nlri': [], 'withdraw': []}, {'x': 'line1\nline2 é "q"'}],
     'update_error': [UPD_ERR, {}],
     'keepalive': [None],
     'send_open': [OPEN],
@@ -338,6 +342,8 @@ def boundary_histories():
         hs.append([['restart'], ['crash', 'update', payload, n + 1], ['restart']] + CONT)
     # events with no handler running are lost, not written
     hs.append([['cb', 'update', UPD_S], ['restart'], ['crash', 'update', UPD_S, 3], ['cb', 'update', UPD_S], ['restart']] + CONT)
+    # the last complete record before a restart is longer than 4096 characters
+    hs.append([['restart'], ['cb', 'update', UPD_S], ['cb', 'update', UPD_XL], ['restart'], ['cb', 'update', UPD_S], ['restart']] + CONT)
     # check_file_size called directly, keepalives
     hs.append([['restart'], ['cb', 'check_file_size', None], ['cb', 'keepalive', None], ['tick', 3], ['cb', 'check_file_size', None],
                ['cb', 'keepalive', None], ['restart']] + CONT)
@@ -379,6 +385,107 @@ def random_history(r):
     return h
 
 
+def protocol_integration(res):
+    """What the PROTOCOL hands to the handler (not what this suite thinks it hands): a real session (the simulated reactor of
+    impl_session) whose application handler is the real DefaultHandler with message logging on.  After every event the files
+    are audited: every line a complete JSON object with the keys t, seq, type, msg; sequence numbers consecutive.
+    Implementation only (the log model takes the payload as given)."""
+    import shutil as _sh
+    import impl_session as S
+    from gen import session_gen as SG
+    root = os.path.join(I.SCRATCH_ROOT, 'scratch_integration_%d' % os.getpid())
+    _sh.rmtree(root, ignore_errors=True)
+    os.makedirs(root)
+    CONF = I.CONF
+    for k, v in (('write_disk', True), ('write_dir', root), ('write_msg_max_size', 10 ** 9), ('write_keepalive', True)):
+        CONF.set_override(k, v, group='message')
+    try:
+        sim = S.Sim({})
+        real = I.dh.DefaultHandler()
+        real.init()
+        rec = sim.handler
+        for name in ('on_update_error', 'update_received', 'keepalive_received', 'open_received', 'send_open',
+                     'route_refresh_received', 'notification_received', 'on_connection_lost', 'on_connection_failed',
+                     'on_established'):
+            if not hasattr(rec, name) or not hasattr(real, name):
+                continue
+
+            def both(*a, _r=getattr(rec, name), _d=getattr(real, name), **kw):
+                _r(*a, **kw)
+                return _d(*a, **kw)
+            setattr(rec, name, both)
+        pool = dict(SG.message_pool(S.DEFAULT_CFG['remote_as']))
+        script = [('boot', None), ('connok', 0), ('chunk', 'open_ok'), ('chunk', 'keepalive'), ('chunk', 'update_ok'),
+                  ('chunk', 'update_bad_origin'), ('chunk', 'update_bad_prefix'), ('chunk', 'update_withdraw'), ('chunk', 'rr'),
+                  ('chunk', 'rr_cisco'), ('chunk', 'update_aspath4'), ('chunk', 'update_mp_unknown_family'),
+                  ('chunk', 'update_mpunreach_unknown_family'), ('chunk', 'update_max4096'), ('chunk', 'keepalive')]
+        # every UPDATE the repository's own tests know (all attribute / NLRI families), and each attribute value found there
+        # wrapped under the type codes whose decoders accept it: whatever they decode to must be loggable
+        from lib import astscan
+        import struct as _st
+        mark = b'\xff' * 16
+        lits = astscan.harvest_byte_literals()
+        for b in lits:
+            if b[:16] == mark and len(b) > 23 and b[18] == 2 and len(b) <= 4096:
+                pool['lit:' + b[19:40].hex()] = b
+                script.append(('chunk', 'lit:' + b[19:40].hex()))
+        n = 0
+        for v in lits:
+            if v[:16] == mark or not (4 <= len(v) <= 1500):
+                continue
+            for code, flag in ((14, 0x90), (15, 0x90), (29, 0x90), (40, 0xd0), (16, 0xd0), (22, 0xd0), (23, 0xd0)):
+                blk = bytes([flag, code]) + _st.pack('!H', len(v)) + v
+                body = _st.pack('!H', 0) + _st.pack('!H', len(blk)) + blk
+                key = 'wrap:%d:%s' % (code, v[:12].hex())
+                if key not in pool:
+                    pool[key] = mark + _st.pack('!HB', len(body) + 19, 2) + body
+                    script.append(('chunk', key))
+                    n += 1
+        script += [('chunk', 'keepalive'), ('chunk', 'notif_cease'), ('lost', 0)]
+        trace = []
+        msgdir = os.path.join(root, '10.0.0.2', 'msg')
+        seen = 0
+        for kind, arg in script:
+            ev = {'k': kind}
+            if kind in ('connok', 'lost'):
+                ev['c'] = arg
+            elif kind == 'chunk':
+                ev = {'k': 'chunk', 'c': 0, 'hex': pool[arg].hex()}
+            if not sim.enabled(ev):
+                continue
+            sim.step(ev)
+            trace.append(arg if kind == 'chunk' else kind)
+            lines = []
+            if os.path.isdir(msgdir):
+                for fn in sorted(os.listdir(msgdir)):
+                    with open(os.path.join(msgdir, fn), 'rb') as fh:
+                        data = fh.read()
+                    parts = data.split(b'\n')
+                    lines += parts[:-1]
+                    if parts[-1]:
+                        res.fail(PROP, 'after a reported event the log ends in an incomplete line (%d octets)' % len(parts[-1]),
+                                 {'suite': 'msglog', 'integration': trace}, key='integration-broken-line')
+            for n, ln in enumerate(lines[seen:], start=seen + 1):
+                try:
+                    obj = json.loads(ln.decode('utf-8'))
+                    ok = isinstance(obj, dict) and set(obj) == {'t', 'seq', 'type', 'msg'} and obj['seq'] == n
+                except ValueError:
+                    ok = False
+                if not ok:
+                    res.fail(PROP, 'line %d written for what the protocol reported is not a complete record with the documented '
+                                   'keys and the next sequence number: %r' % (n, ln[:120]),
+                             {'suite': 'msglog', 'integration': trace}, key='integration-broken-line')
+                    break
+            seen = len(lines)
+            res.stats.case(('integration', tuple(trace)), sample=None)
+            res.stats.hit('integration_events')
+        res.stats.hit('integration_lines', seen)
+    finally:
+        for k in ('write_disk', 'write_dir', 'write_msg_max_size', 'write_keepalive'):
+            CONF.clear_override(k, group='message')
+        _sh.rmtree(root, ignore_errors=True)
+
+
 def run(seed, tier, driver):
     res = SuiteResult('msglog')
     r = rng_for(seed, 'msglog', tier)
@@ -387,6 +494,7 @@ def run(seed, tier, driver):
     audits = []
     os.makedirs(I.SCRATCH_ROOT, exist_ok=True)
     try:
+        protocol_integration(res)
         # (a) every callback, with and without a restart after every event, for every rotation threshold
         for ms in THRESHOLDS:
             for wk in (True, False):
